@@ -118,7 +118,7 @@ class QBytesTensor(QTensor):
 
         if t.shape != self.shape:
             raise NotImplementedError("In-place operations that modify the shape of a QBytesTensor are not supported.")
-        if not isinstance(t, QBytesTensor) or t.qtype != self.qtype or t.axis != self.axis or t.dtype != self.dtype:
+        if not isinstance(t, QBytesTensor) or t.qtype != self.qtype or t.dtype != self.dtype:
             if isinstance(t, QTensor):
                 t = t.dequantize()
             t = t.to(self.dtype)
@@ -126,4 +126,6 @@ class QBytesTensor(QTensor):
         # The inner tensors might be shared with other quantized tensors: they must not be modified
         self._data = t._data
         self._scale = t._scale
+        # (the transposition of a square Tensor quantized per-axis changes its axis)
+        self._axis = t.axis
         return self
